@@ -36,6 +36,7 @@ type c08Case struct {
 	Procs   int                `json:"procs"`   // GOMAXPROCS for the round
 	Yield   []int              `json:"yield"`   // harness-side Gosched pattern
 	Spin    []int              `json:"spin"`    // per registrar: busy iterations before its first call (staggered arrival)
+	Storm   int                `json:"storm"`   // >0: milliseconds of concurrent by-value encodes of large values of one type
 }
 
 var spinSink atomic.Int64
@@ -172,6 +173,9 @@ func genC08(t *rapid.T) c08Case {
 	c.Procs = rapid.SampledFrom([]int{2, 4, 16}).Draw(t, "procs")
 	c.Yield = rapid.SliceOfN(rapid.IntRange(0, 3), 8, 8).Draw(t, "yield")
 	c.Spin = rapid.SliceOfN(rapid.SampledFrom([]int{0, 0, 200, 1000, 5000, 20000, 60000, 200000, 600000}), 16, 16).Draw(t, "spin")
+	if rapid.IntRange(0, 11).Draw(t, "storm") == 0 {
+		c.Storm = rapid.SampledFrom([]int{120, 250, 400}).Draw(t, "stormms")
+	}
 	return c
 }
 
@@ -397,6 +401,16 @@ func (r *c08Runner) run(c c08Case) *Failure {
 	if fail != nil {
 		return fail
 	}
+	if c.Storm > 0 || c08Round == 1 {
+		ms := c.Storm
+		if ms == 0 {
+			ms = 250
+		}
+		if f := c08Storm(c.Procs, ms); f != nil {
+			return f
+		}
+		r.w.label("by-value-storm")
+	}
 	// the batch joins the steady-state pool
 	for g := range regs {
 		for k := range regs[g] {
@@ -452,4 +466,73 @@ func TestC08(t *testing.T) {
 	w := newWorker(t, "C08")
 	r := &c08Runner{w: w}
 	drive(t, caseRunner[c08Case]{w: w, gen: genC08, run: r.run, journalled: true})
+}
+
+// c08Storm: many goroutines per P keep encoding their own large value of one type, passed
+// BY VALUE (the struct is copied into per-type pooled scratch storage), long enough for
+// goroutines to be preempted in the middle of a call; every output must be the caller's own value.
+func c08Storm(procs, ms int) *Failure {
+	spec := &core.StructSpec{Fields: []*core.FieldSpec{
+		{Name: "Tag", ID: 1, Type: &core.TypeSpec{Kind: core.KI64}},
+		{Name: "Name", ID: 2, Type: &core.TypeSpec{Kind: core.KString}},
+		{Name: "Items", ID: 3, Type: &core.TypeSpec{Kind: core.KList, Elem: &core.TypeSpec{Kind: core.KI64}}},
+		{Name: "Last", ID: 4, Type: &core.TypeSpec{Kind: core.KI32}},
+	}}
+	b := core.Bind(spec)
+	if procs <= 0 {
+		procs = 2
+	}
+	g := 4 * procs
+	const items = 24000
+	var mu sync.Mutex
+	var fail *Failure
+	var wg sync.WaitGroup
+	deadline := time.Now().Add(time.Duration(ms) * time.Millisecond)
+	for w := 0; w < g; w++ {
+		wg.Add(1)
+		go func(w int) {
+			defer wg.Done()
+			v := &core.SVal{F: map[uint16]core.Val{1: {I: int64(w)}, 2: {S: []byte(fmt.Sprintf("worker-%04d", w))}, 4: {I: int64(-w)}}}
+			l := core.Val{L: make([]core.Val, items)}
+			for i := range l.L {
+				l.L[i] = core.Val{I: int64(w)}
+			}
+			v.F[3] = l
+			want := core.RefEncode(spec, v)
+			src := b.NewValue(v)
+			arg := src.Elem().Interface()
+			buf := make([]byte, len(want))
+			for n := 0; time.Now().Before(deadline); n++ {
+				sz, f := fSize(arg)
+				if f == nil && sz != len(want) {
+					f = failf("size-wrong", "EncodedSize(by value) = %d under concurrency, %d sequentially", sz, len(want))
+				}
+				var cnt int
+				var err error
+				if f == nil {
+					cnt, err, f = fEncode(buf, arg)
+				}
+				if f == nil && (err != nil || cnt != len(want) || string(buf[:cnt]) != string(want)) {
+					got, _, _ := core.ParseStruct(buf[:cnt], 8)
+					desc := ""
+					for _, fl := range got.Fields {
+						if fl.T == core.WI64 || fl.T == core.WI32 {
+							desc += fmt.Sprintf(" field%d=%d", fl.ID, int64(fl.V.U))
+						}
+					}
+					f = failf("byvalue-mixture", "goroutine %d encoded its own unshared value by value and got another value's bytes (n=%d err=%v;%s)", w, cnt, err, desc)
+				}
+				if f != nil {
+					mu.Lock()
+					if fail == nil {
+						fail = f
+					}
+					mu.Unlock()
+					return
+				}
+			}
+		}(w)
+	}
+	wg.Wait()
+	return fail
 }
